@@ -362,6 +362,8 @@ def shapes():
         "s_gen": lambda: S("named", [F("a", "A"), F("b", "u8"), F("p", "core::marker::PhantomData<A>")], "s_gen", [("A: P", "u8")]),
         "e_mixed": lambda: TypeSpec("enum", [Variant("A", "unit", []), Variant("B", "tuple", [F(None, "u8"), F(None, "i8")]),
                                              Variant("C", "named", [F("a", "u8"), F("b", "u8")])], shape="e_mixed"),
+        "e_data_unit": lambda: TypeSpec("enum", [Variant("A", "tuple", [F(None, "u8")]), Variant("B", "unit", []), Variant("C", "named", [F("a", "u8")]), Variant("D", "unit", [])],
+                                         shape="e_data_unit"),
         "e_units3": lambda: TypeSpec("enum", [Variant("A", "unit", []), Variant("B", "unit", []), Variant("C", "unit", [])], shape="e_units3"),
         "e_two": lambda: TypeSpec("enum", [Variant("A", "tuple", [F(None, "u8"), F(None, "u8")]),
                                            Variant("B", "tuple", [F(None, "u8"), F(None, "u8")])], shape="e_two"),
